@@ -47,6 +47,8 @@ def handle (op : String) (args : List String) : String :=
       | .ok (l', fixed) => s!"ok fixed={if fixed then 1 else 0} " ++ showLang l'
   | "lookup", [h] => "ok " ++ hxo (lookupLanguage (Driver.unhexChars h))
   | "territory", [h] => "ok " ++ hxo (lookupTerritory (Driver.unhexChars h))
+  | "munch", [h] => "ok " ++ hx (munchName (Driver.unhexChars h))
+  | "name-raw", [h] => showLangE (getLanguageForName (munchName (Driver.unhexChars h)))
   | "name", [h] => showLangE (getLanguageForName (Driver.unhexChars h))
   | "cli", [h] =>
     match cliLanguage (Driver.unhexChars h) with
@@ -59,7 +61,8 @@ def handle (op : String) (args : List String) : String :=
     s!"ok {hx b} {hx se.1} {hx se.2}"
   | "check", [tmpl, opt, path, metas, pls, pcs, munch] =>
     let tbl := untable munch
-    let munchF : List Char → List Char := fun s => (tbl.lookup s).getD s
+    -- `*`: the model's own `_munch_language_name`; else a table supplied by the harness
+    let munchF : List Char → List Char := if munch == "*" then munchName else fun s => (tbl.lookup s).getD s
     let optL : Except LErr (Option Language) :=
       if opt == "~" then .ok none else
       match cliLanguage (Driver.unhexChars opt) with
